@@ -71,7 +71,7 @@ Section C03.
   (* --- delivery ---------------------------------------------------------------------------------- *)
 
   Lemma g_delivered_prologue st : g_delivered (prologue c st) = g_delivered st.
-  Proof. unfold prologue. destruct (aw_cnt st =? 0); reflexivity. Qed.
+  Proof. rewrite prologue_eq. destruct (aw_cnt st =? 0); reflexivity. Qed.
 
   Lemma g_delivered_tstep st op :
     g_delivered (snd (tstep st op)) = g_delivered st ++ match fst (tstep st op) with OWasted l => l | _ => [] end.
@@ -165,7 +165,7 @@ Section C03.
       intros Hr H t Hin Hex.
       pose proof (Inv_prologue _ _ (reach_Inv _ _ _ _ _ Hr)) as HI. set (p := prologue c st) in *.
       assert (Hinp : In t (live p ++ wasted p)).
-      { unfold p, prologue. destruct (aw_cnt st =? 0); cbn [live wasted set_aw]; [|exact Hin].
+      { unfold p. rewrite prologue_eq. destruct (aw_cnt st =? 0); cbn [live wasted set_aw]; [|exact Hin].
         unfold auto_waste. cbn [live wasted set_wasted set_live]. apply in_or_app. rewrite In_ins_all, !filter_In.
         apply in_app_or in Hin. destruct Hin as [Hin|Hin]; [|auto].
         destruct (expired c (epochs st) t) eqn:E; [right; left; auto|left; auto]. }
